@@ -426,12 +426,22 @@ func c10Check(c *core.Ctx, cases []c10Case) []core.Outcome {
 	return outs
 }
 
+// c10Corpus: minimised past failures (known_findings.json, "fixed"), run first.
+var c10Corpus = func() []c10Case {
+	h := func(s string) string { return hex.EncodeToString([]byte(s)) }
+	return []c10Case{
+		// D47: a case-insensitive fixed-count loop expanded into a string of its count (Compile took minutes)
+		{PatHex: h("a{2147482647}a{1000}"), Opts: int32(regexp2.IgnoreCase), InHex: h("aaa"), ReplHex: h("x"), Count: -1},
+		{PatHex: h("aa{2147483646}"), Opts: int32(regexp2.IgnoreCase | regexp2.Multiline | regexp2.ECMAScript), InHex: h("aaa"), ReplHex: h("$&"), Count: -1},
+	}
+}()
+
 func init() {
 	core.Register("C10", func(c *core.Ctx) {
 		core.RunLeg(c, core.Leg[c10Case]{
 			Name: "X", Kind: "exploration(no panic, no hang)",
 			Rule: "patterns: arbitrary byte strings — literals harvested from the repository's tests and corpora (all of them, compiling or not), structure-aware mutations of them (insert metacharacter sequences, delete/replace bytes incl. invalid UTF-8, duplicate slices, truncate, wrap), printed random full-syntax ASTs and their mutations, random concatenations of metacharacter sequences; random subsets of the 9 regex option bits, code-gen analysis / bitmap off / capture order / stack limits; inputs and replacement strings arbitrary bytes ($-forms, NUL, invalid UTF-8, astral); start offsets in [-2,len+2], counts in {-2,-1,0,1,2,5}. Every exported function (Compile/MustCompile, Match*, Find*, FindNextMatch chain + all Match/Group/Capture accessors, FindAll*Index, Replace, ReplaceFunc, Split, group maps, Escape/Unescape, all 21 adapter methods) runs under recover() and a 20 s watchdog with MatchTimeout 150 ms; allowed outcomes: normal return, parse error, timeout, stack limit, documented argument error; MustCompile panics exactly with the parse error; the adapter panics only with a match-time error. non-trivial = non-empty pattern",
-			N: c.N(12000, 300000), Gen: c10Gen, Check: c10Check, Batch: 500,
+			N: c.N(12000, 300000), Gen: c10Gen, Check: c10Check, Batch: 500, Corpus: c10Corpus,
 		})
 		vmLeg(c, c.N(3000, 100000), vmSizes{k: 24, maxSteps: c.N(4000, 20000), maxText: 12, extra: 2}) // leg W: interpreter model vs executeDefault (vm.go)
 	})
